@@ -203,6 +203,21 @@ def dispatch (fields : List String) : Result :=
     { model := "alive", oracle := if impl == "alive" then "ok" else "fail:C09:server-died", tags := "alive" }
   | ["server.start", _, impl] => { model := "started", oracle := "fail:C09:server-did-not-start:" ++ impl }
   | ["server.reload", steps, impl] => cmdServerReload steps impl
+  | ["server.reload-blocked", vs, impl] =>
+    -- a reload held open on a FIFO: old answers meanwhile, second SIGUSR1 not lost (specification only)
+    match vs.splitOn ",", impl.splitOn " " with
+    | [v1, _v2, v3], [before, during, first, second, final, alive] =>
+      let d := ((during.drop 7).toString).splitOn ","
+      let vsd : List String :=
+        (if before != "before:" ++ v1 then ["fail:C19:initial-answer-differs"] else [])
+        ++ (if d.any (· == "noreply") then ["fail:C19:query-unanswered-during-reload"] else [])
+        ++ (if d.any (fun x => x != v1 && x != "noreply") then ["fail:C19:answer-during-reload-not-from-old-configuration"] else [])
+        ++ (if first != "first:true" then ["fail:C19:valid-configuration-rejected"] else [])
+        ++ (if second != "second:true" then ["fail:C19:second-sigusr1-lost"] else [])
+        ++ (if final != "final:" ++ v3 then ["fail:C19:later-answers-do-not-reflect-the-new-files"] else [])
+        ++ (if alive != "alive" then ["fail:C19:server-died"] else [])
+      { model := impl, oracle := if vsd.isEmpty then "ok" else ",".intercalate vsd, tags := "blocked" }
+    | _, _ => { model := "?", oracle := "fail:C19:unparsable", tags := "blocked" }
   | ["hosts.parse", hex, impl] => cmdHostsParse hex impl
   | ["hosts.roundtrip", d, impl] => cmdHostsRoundtrip d impl
   | ["hosts.tozone", d, impl] => cmdHostsToZone d impl
